@@ -48,19 +48,28 @@ def returns_copy_of(P, g, engine_fn):
     rets = [n for n in g.walk() if n["k"] == "ReturnStmt" and n["c"] and n["c"][0] is not None]
     if not rets:
         return False
+    def is_copy(sx, need_dup=False):
+        sx = strip(sx)
+        if sx is None:
+            return False
+        if const_value(sx) == 0:
+            return not need_dup
+        if sx["k"] == "CallExpr" and sx.get("callee") in ("my_strdup", "strdup"):
+            return True
+        if sx["k"] == "ConditionalOperator":      # value ? my_strdup(value) : NULL
+            return is_copy(sx["c"][1]) and is_copy(sx["c"][2]) and (is_copy(sx["c"][1], True) or is_copy(sx["c"][2], True))
+        return False
     for r in rets:
         e = strip(r["c"][0])
         if e is None:
             return False
-        if const_value(e) == 0:
-            continue
-        if e["k"] == "CallExpr" and e.get("callee") in ("my_strdup", "strdup"):
+        if is_copy(e):
             continue
         if e["k"] == "DeclRefExpr":
             # variable last assigned from my_strdup
             srcs = [strip(x["c"][1]) for x in g.walk() if x["k"] == "BinaryOperator" and x["op"] == "=" and key(x["c"][0]) == e["n"]]
             srcs += [strip(x["c"][0]) for x in g.walk() if x["k"] == "VarDecl" and x["n"] == e["n"] and x.get("c") and x["c"][0] is not None]
-            if srcs and any(sx is not None and sx["k"] == "CallExpr" and sx.get("callee") in ("my_strdup", "strdup") for sx in srcs):
+            if srcs and all(is_copy(sx) for sx in srcs) and any(is_copy(sx, True) for sx in srcs):
                 continue
         return False
     return True
@@ -160,12 +169,33 @@ def r_wrap(P, chk):
                 chk.violation(rid, "W3:creator:%s" % f.name, f.where(cnode), "%s builds its engine with %s, expected %s" % (
                     f.name, creator, want_creator))
             frees = [c for c in f.calls("mmd_engine_free") if key(c["c"][1]) == var]
+            flag_of = {id(c): const_value(c["c"][2]) for c in frees}
+            # a helper that takes the engine and frees it on every path (flag: a constant, or one of its parameters)
+            for c in f.calls():
+                g = P.resolve(f, c.get("callee") or "")
+                if g is None or g is f or not P.first_party(g) or c.get("callee") == "mmd_engine_free":
+                    continue
+                pi = [i for i, a in enumerate(c["c"][1:]) if key(a) == var]
+                if not pi or pi[0] >= len(g.params):
+                    continue
+                gfrees = [y for y in g.calls("mmd_engine_free") if key(y["c"][1]) == g.params[pi[0]][0]]
+                if gfrees and passes_through(g, [y["i"] for y in gfrees]):
+                    fl = None
+                    fk = key(gfrees[0]["c"][2])
+                    if const_value(gfrees[0]["c"][2]) is not None:
+                        fl = const_value(gfrees[0]["c"][2])
+                    else:
+                        qi = [i for i, q in enumerate(g.params) if q[0] == fk]
+                        if qi and 1 + qi[0] < len(c["c"]):
+                            fl = const_value(c["c"][1 + qi[0]])
+                    frees.append(c)
+                    flag_of[id(c)] = fl
             okf = passes_through(f, [c["i"] for c in frees])
             chk.obligation(rid, "W3 %s releases the engine on every path" % f.name, okf)
             if not okf:
                 chk.violation(rid, "W3:leak:%s" % f.name, f.where(), "%s does not call mmd_engine_free(%s, ..) on every path" % (f.name, var))
             for fr in frees:
-                flag = const_value(fr["c"][2])
+                flag = flag_of.get(id(fr))
                 if kind == "d_string":
                     okfl = flag == 0
                     why = "the caller owns the DString: freeing it is a double free / use after free for the caller"
@@ -181,7 +211,7 @@ def r_wrap(P, chk):
             # engine call happens before the free (no use after free)
             for c in calls:
                 for fr in frees:
-                    if f.cfg.dominates(fr["i"], c["i"]):
+                    if fr is not c and f.cfg.dominates(fr["i"], c["i"]):
                         chk.violation(rid, "W3:order:%s" % f.name, f.where(c), "%s uses the engine after freeing it" % f.name)
             # W2 language
             if any(p[0] == "language" for p in f.params):
@@ -219,7 +249,7 @@ def r_wrap(P, chk):
                     for c in calls:
                         g = P.resolve(f, c.get("callee") or "")
                         if g is not None and g is not eng and returns_copy_of(P, g, eng.name) and \
-                                not any(f.cfg.dominates(fr["i"], c["i"]) for fr in frees):
+                                not any(fr is not c and f.cfg.dominates(fr["i"], c["i"]) for fr in frees):
                             okd = True
                 chk.obligation(rid, "W3 %s copies the engine-owned value before freeing the engine" % f.name, okd)
                 if not okd:
@@ -376,21 +406,42 @@ def r_wrap(P, chk):
             chk.violation(rid, "W5:args", main.where(c), "main calls mmd_d_string_convert_to_data(%s)" % ",".join(args))
     # -t table: strcmp(a_format->sval[0], "x") == 0  => format = FORMAT_X
     table = {}
-    for n in main.walk():
-        if n["k"] != "IfStmt":
-            continue
-        cond = strip(n["c"][0])
-        if cond is None or cond["k"] != "BinaryOperator" or cond["op"] != "==":
-            continue
-        call = strip(cond["c"][0])
-        if call is None or call["k"] != "CallExpr" or call.get("callee") != "strcmp" or "a_format" not in resolve_key(main, call["c"][1]):
-            continue
-        lit = strip(call["c"][2])
-        if lit is None or lit["k"] != "StringLiteral":
-            continue
-        then = n["c"][1]
-        vals = [enum_name(a["c"][1]) for a in walk(then) if a["k"] == "BinaryOperator" and a["op"] == "=" and key(a["c"][0]) == "format"]
-        table[lit["s"]] = vals
+    fmt_names = {v: k for k, v in P.enumerators("output_format")}
+    for g in main.unit.funcs.values():
+        # the chain may live in main or in a helper that receives the name and hands the format back
+        for n in g.walk():
+            if n["k"] != "IfStmt":
+                continue
+            cond = strip(n["c"][0])
+            if cond is None or cond["k"] != "BinaryOperator" or cond["op"] != "==":
+                continue
+            call = strip(cond["c"][0])
+            if call is None or call["k"] != "CallExpr" or call.get("callee") != "strcmp":
+                continue
+            if g is main and "a_format" not in resolve_key(main, call["c"][1]):
+                continue
+            lit = strip(call["c"][2])
+            if lit is None or lit["k"] != "StringLiteral":
+                continue
+            then = n["c"][1]
+            vals = [enum_name(a["c"][1]) for a in walk(then) if a["k"] == "BinaryOperator" and a["op"] == "=" and
+                    key(a["c"][0]).replace("(", "").replace(")", "") in ("format", "*format")]
+            vals += [enum_name(a["c"][0]) for a in walk(then) if a["k"] == "ReturnStmt" and a.get("c") and a["c"][0] is not None
+                     and (enum_name(a["c"][0]) or "").startswith("FORMAT_")]
+            if g is not main and not any((v or "").startswith("FORMAT_") for v in vals):
+                continue
+            table[lit["s"]] = vals
+    if not table:
+        # table-driven form at file scope: { "name", FORMAT_X, ... } rows
+        for v in main.unit.vars:
+            init = v.get("init")
+            if not isinstance(init, list):
+                continue
+            for row in init:
+                if isinstance(row, list) and len(row) >= 2 and isinstance(row[0], str):
+                    ints = [c for c in row[1:] if isinstance(c, int)]
+                    if ints and ints[0] in fmt_names and "format" in (v.get("type") or "").lower() + (v.get("name") or "").lower():
+                        table.setdefault(row[0], []).append(fmt_names[ints[0]])
     if not table:
         # table-driven form: a static array of { "name", FORMAT_X } pairs in main.c
         for g in main.unit.funcs.values():
@@ -398,7 +449,7 @@ def r_wrap(P, chk):
                 if x["k"] != "VarDecl" or not x.get("c") or x["c"][0] is None or x["c"][0]["k"] != "InitListExpr":
                     continue
                 for row in x["c"][0].get("c") or ():
-                    if row is None or row["k"] != "InitListExpr" or len(row.get("c") or ()) != 2:
+                    if row is None or row["k"] != "InitListExpr" or len(row.get("c") or ()) < 2:
                         continue
                     a, b = strip(row["c"][0]), row["c"][1]
                     if a is not None and a["k"] == "StringLiteral" and (enum_name(b) or "").startswith("FORMAT_"):
@@ -468,12 +519,33 @@ def r_dirname_once(P, chk):
     rid = "R-DIRNAME"
     chk.rule(rid, "main never applies dirname() a second time to a string it has already applied it to (the first call may have "
                   "truncated it in place; the asset folder handed to the library would be the parent directory)")
-    main = P.func("main", "main.c")
-    pos = main.cfg.positions()
-    calls = [c for c in main.calls("dirname") if c.get("i") in pos]
-    chk.floor(rid, len(calls), 2, "dirname calls in main")
-    for d in calls:
-        k = key(d["c"][1])
+    unit = P.units["main.c"]
+
+    def events(g, depth=0):
+        """(call node in g, key of the string dirname is applied to): direct calls, and calls of a same-unit helper that applies
+        dirname to the parameter the string is bound to"""
+        out = []
+        for c in g.calls():
+            if c.get("callee") == "dirname":
+                out.append((c, key(c["c"][1])))
+            elif depth < 2:
+                h = unit.funcs.get(c.get("callee") or "")
+                if h is not None and h is not g:
+                    names = {q[0]: i for i, q in enumerate(h.params)}
+                    for _, hk in events(h, depth + 1):
+                        root = re.match(r"[\(\*&]*([A-Za-z_]\w*)", hk)
+                        if root and root.group(1) in names and 1 + names[root.group(1)] < len(c["c"]):
+                            out.append((c, hk.replace(root.group(1), key(c["c"][1 + names[root.group(1)]]), 1)))
+        return out
+    total = sum(1 for g in unit.funcs.values() for c in g.calls("dirname"))
+    chk.floor(rid, total, 2, "dirname calls in main.c")
+    for main in unit.funcs.values():
+      pos = main.cfg.positions()
+      evs = [(c, k_) for c, k_ in events(main) if c.get("i") in pos]
+      calls = [c for c, _ in evs]
+      kof = {id(c): k_ for c, k_ in evs}
+      for d in calls:
+        k = kof[id(d)]
         # the variable that receives the result
         recv = None
         p = main.parent(d)
@@ -505,7 +577,7 @@ def r_dirname_once(P, chk):
         reach = set()
         for s_ in main.cfg.blocks[b0].rsucc:
             reach |= edpe_blocks(main, "?none", 0, extra_decide=decide, start=s_, blocked=loop_heads)
-        bad = [c for c in calls if c is not d and key(c["c"][1]) == k and
+        bad = [c for c in calls if c is not d and kof[id(c)] == k and
                ((pos[c["i"]][0] in reach and pos[c["i"]][0] not in loop_heads) or (pos[c["i"]][0] == b0 and pos[c["i"]][1] > i0))]
         chk.obligation(rid, "%s: dirname(%s) is not followed by another dirname of the same string" % (main.where(d), k), not bad)
         for c in bad[:1]:
